@@ -47,13 +47,20 @@ def checkSigFrom (c parent : Cert) : Bool :=
   !(parent.keyUsage != 0 && parent.keyUsage &&& certSign == 0) &&
   (c.signer == parent.key && c.signer != 0)
 
-/-- `findVerifiedParents`: candidates by authority key id, else by issuer name; then signature -/
+/-- the child's AuthorityKeyId is present and equals the candidate's SubjectKeyId (the `bySubjectKeyId` index) -/
+def keyIdMatch (c p : Cert) : Bool :=
+  match c.aki with
+  | some k => p.ski == some k
+  | none => false
+
+/-- `findVerifiedParents`: the candidates are the pool members whose SubjectKeyId equals the child's
+    AuthorityKeyId (if it has one), followed by the members named like the child's issuer that are not already
+    listed; every candidate is then signature-checked.  (Before the repair of round 9 the name index was consulted
+    only when the key-id index gave nothing.) -/
 def findVerifiedParents (pool : List Cert) (c : Cert) : List Cert :=
-  let byKey := match c.aki with
-    | some k => pool.filter (fun (p : Cert) => p.ski == some k)
-    | none => []
-  let cands := if byKey.isEmpty then pool.filter (fun (p : Cert) => p.subj == c.iss) else byKey
-  cands.filter (checkSigFrom c)
+  let byKey := pool.filter (keyIdMatch c)
+  let byName := pool.filter (fun (p : Cert) => p.subj == c.iss && !keyIdMatch c p)
+  (byKey ++ byName).filter (checkSigFrom c)
 
 /-- `matchNameConstraint` -/
 def matchNameConstraint (domain constraint : String) : Bool :=
